@@ -273,8 +273,12 @@ def wiring_case(arg):
   (collision bumps depend on it), whatever that order is."""
   hash_type, order = arg
   from .. import relayh
-  universe = find_universe(hash_type, 5)
-  dests = [universe[i] for i in order]
+  if order == 'hostnames':
+    # host names as an operator writes them (capitals, an IPv6 literal): the spelling is part of the hashed replica key
+    dests = [('Cache-A.Example.COM', 2004, 'a'), ('cache-b.example.com', 2004, 'b'), ('2001:DB8::5', 2004, 'c'), ('CACHE-D', 2104, None)]
+  else:
+    universe = find_universe(hash_type, 5)
+    dests = [universe[i] for i in order]
   sysm = relayh.Relay({'max_queue': 10, 'batch': 5, 'flow': True, 'dynamic': False, 'protocol': 'pickle', 'ndest': len(dests),
                        'dests': dests, 'relay_method': 'consistent-hashing', 'hash_type': hash_type})
   bad = []
@@ -288,7 +292,7 @@ def wiring_case(arg):
       diff = sorted(set(got) ^ set(want))[:4]
       bad.append(('compat:wiring', 'relay configured with DESTINATIONS = %s builds a ring that differs from the published %s ring for that '
                   'list in %d entries (e.g. %r)' % (', '.join(relayh.dest_str(d) for d in dests), hash_type,
-                                                  len(set(got) ^ set(want)) // 2, diff), {'wiring_order': list(order), 'hash': hash_type}))
+                                                  len(set(got) ^ set(want)) // 2, diff), {'wiring_order': order if isinstance(order, str) else list(order), 'hash': hash_type}))
   finally:
     sysm.close()
   return len(dests), bad
@@ -296,7 +300,7 @@ def wiring_case(arg):
 
 def run(ctx):
   env.boot()
-  orders = [(0, 1, 2, 3, 4), (4, 3, 2, 1, 0), (2, 0, 4, 1, 3), (1, 0), (3, 1, 0)]
+  orders = [(0, 1, 2, 3, 4), (4, 3, 2, 1, 0), (2, 0, 4, 1, 3), (1, 0), (3, 1, 0), 'hostnames']
   wtasks = [(h, o) for h in HASHES for o in orders]
   for (h, o), (n, wbad) in zip(wtasks, core.pmap(wiring_case, wtasks, fresh=True)):
     for key, what, rep in wbad:
@@ -372,7 +376,7 @@ def replay(path):
   body = json.load(open(path))
   rep = body['replay']
   if 'wiring_order' in rep:
-    n, bad = wiring_case((rep['hash'], tuple(rep['wiring_order'])))
+    n, bad = wiring_case((rep['hash'], rep['wiring_order'] if isinstance(rep['wiring_order'], str) else tuple(rep['wiring_order'])))
     for key, what, _ in bad:
       print('oracle: [%s] %s' % (key, what))
     if not bad:
